@@ -7,6 +7,7 @@ Events (one per Chain.tla action), each a dict with "ev":
   relabel       (tree.relabel_nodes called from the run loop)
   conc_update   old, new, k, n (arguments the concentration sampler received), tree key
   append        iter, alpha, log_p_one, tree (abstract key), dict (the stored tree dict)
+  dp_move       (inner_moves=True) one single-point reassignment inside a data-point sweep: d, in/out abstract keys
 Wrappers log after the call returns (also on the error path).
 """
 import contextlib
@@ -65,8 +66,9 @@ class ConcProxy:
 
 
 class ChainRecorder:
-    def __init__(self, on_tree=None):
+    def __init__(self, on_tree=None, inner_moves=False):
         self.events = []
+        self.inner_moves = inner_moves
         self.on_tree = on_tree
         self._saved = {}
 
@@ -121,6 +123,25 @@ class ChainRecorder:
             saved_relabel(self_tree)
             rec.events.append({"ev": "relabel"})
 
+        from phyclone.mcmc.gibbs_mh import DataPointSampler
+        saved_inner = DataPointSampler._sample_tree
+
+        def _sample_tree(self_s, data_idx, tree, old_node):
+            ev = {"ev": "dp_move", "d": int(data_idx)}
+            try:
+                ev["in"] = absstate.project(tree, full=True)[0]
+            except absstate.Inconsistent as ex:
+                ev["in_error"] = str(ex)
+            out = saved_inner(self_s, data_idx, tree, old_node)
+            try:
+                ev["out"] = absstate.project(out, full=True)[0]
+            except absstate.Inconsistent as ex:
+                ev["out_error"] = str(ex)
+            rec.events.append(ev)
+            return out
+
+        if rec.inner_moves:
+            DataPointSampler._sample_tree = _sample_tree
         Tree.relabel_nodes = relabel_nodes
         prun.setup_samplers = setup_samplers
         prun.append_to_trace = append_to_trace
@@ -129,6 +150,7 @@ class ChainRecorder:
         try:
             yield self
         finally:
+            DataPointSampler._sample_tree = saved_inner
             Tree.relabel_nodes = saved_relabel
             for n, f in saved.items():
                 setattr(prun, n, f)
